@@ -123,6 +123,11 @@ func c13op(c *LRUCache, m *c13model, i int, nbases int) {
 			for _, l := range ex {
 				vp.Assert(int32(l.Boundary[0]) != victim.base, "warn:existing-lines-hide-victim")
 			}
+			// a line being evicted is not served to sub-line readers (the L3 -> L1 path), resident ones are
+			_, _, sub := c.GetSubCacheLine([]int32{victim.base}, int32(m.lineLen))
+			vp.Assert(!sub, "warn:subline-hides-victim")
+			sa, sd, sub2 := c.GetSubCacheLine([]int32{base + L - 1}, int32(m.lineLen))
+			vp.Assert(sub2 && int32(sa) == base && c13same(sd, dm), "warn:subline-serves-resident")
 			data, ok := c.EvictCacheLine(AlignedAddress(victim.base))
 			vp.Assert(ok && c13same(data, victim.data), "warn:evict-victim")
 			m.remove(len(m.lines) - 1)
